@@ -299,9 +299,18 @@ class Item:
         return out
 
     # ---- Rust
+    # generics: (param, bounds or None, concrete type)                       a type parameter
+    #           ("'a", "lifetime", None)                                    a lifetime parameter (instance: 'static)
+    #           ("N", "const usize", 3)                                     a const parameter (instance: the value)
     def inst_name(self):
         """the type at the instance the catalogue uses"""
-        return self.name + ("<%s>" % ", ".join(rust(g[2]) for g in self.generics) if self.generics else "")
+        def inst(g):
+            if g[1] == "lifetime":
+                return "'static"
+            if isinstance(g[1], str) and g[1].startswith("const "):
+                return str(g[2])
+            return rust(g[2])
+        return self.name + ("<%s>" % ", ".join(inst(g) for g in self.generics) if self.generics else "")
 
     def self_name(self):
         """the type as written inside its own declaration"""
@@ -310,7 +319,13 @@ class Item:
     def decl_generics(self, extra=None):
         if not self.generics:
             return ""
-        return "<%s>" % ", ".join(g[0] + (": " + " + ".join(x for x in [g[1], extra] if x) if (g[1] or extra) else "") for g in self.generics)
+        def decl(g):
+            if g[1] == "lifetime":
+                return g[0]
+            if isinstance(g[1], str) and g[1].startswith("const "):
+                return "const %s: %s" % (g[0], g[1][6:])
+            return g[0] + (": " + " + ".join(x for x in [g[1], extra] if x) if (g[1] or extra) else "")
+        return "<%s>" % ", ".join(decl(g) for g in self.generics)
 
     def rust_cattr(self, a):
         k = a[0]
